@@ -302,13 +302,16 @@ def _check_from(track, i0, sn, fetches, admitted_n, what):
     n = len(track.durs)
     for k in sorted(fetches):
         f = fetches[k]
+        if admitted_n is not None and k < admitted_n and f["status"] != 200:
+            return {"kind": "admitted-not-retrievable", "k": k, "request": f["url"],
+                    "what": f"{what}: number {sn + k} is admitted by the Period duration but answered {f['status']}"}
         if i0 + k >= n:
             if f["status"] != 404:
                 return {"kind": "beyond-end-not-404", "k": k, "request": f["url"],
                         "what": f"{what}: number {sn + k} is past the last source segment but answered {f['status']}"}
             continue
         if f["status"] != 200:
-            if admitted_n is None or k < admitted_n:
+            if admitted_n is None:
                 return {"kind": "admitted-not-retrievable", "k": k, "request": f["url"],
                         "what": f"{what}: number {sn + k} answered {f['status']}"}
             continue
@@ -402,7 +405,7 @@ def ch_offsets(ctx) -> Channel:
     with appboot.Clock("2024-03-01T10:00:00Z"):
         for stream in c12_lib.STREAMS:
             trk = segchecks.tracks(app, stream)
-            offs = sweep_offsets(trk, ctx.scale(36, 0), rng)
+            offs = sweep_offsets(trk, ctx.scale(28, 0), rng)
             mode = rng.choice(["vod", "live"])
             for t, start_us, ks, below, times in offsets_case(app, client, c12_lib, segwalk, mp4walk, stream, offs, mode):
                 for k, f in ks.items():
@@ -617,21 +620,34 @@ def _eval_witness(w):
                 url = f"/mps/{w['mode']}/{defn.name}/{MANIFEST}" + ("?" + "&".join(w.get("query", [])) if w.get("query") else "")
                 r = client.get(url)
                 return [{"kind": "manifest-status", "status": r.status_code}] if r.status_code >= 500 else []
-            if w.get("check") == "first-time-url":
+            if w.get("check") == "timeline-walk":
+                # timeline=1: the (t, d) a Period lists must be what its $Time$ URLs serve
                 import segwalk
+                import mp4walk
                 url = f"/mps/{w['mode']}/{defn.name}/{MANIFEST}?" + "&".join(w.get("query", []))
                 r = client.get(url)
                 if r.status_code != 200:
-                    return []
+                    return [{"kind": "manifest-status", "status": r.status_code}]
                 mpd = segwalk.parse_mpd("http://localhost" + url, r.data)
+                out = []
                 for rp in mpd.reps:
-                    if rp.timeline and rp.media and "$Time$" in rp.media:
-                        rs = segwalk.get(client, rp.media_url(time=rp.timeline[0][0]))
-                        if rs.status_code != 200:
-                            return [{"kind": "admitted-not-retrievable", "status": rs.status_code,
-                                     "request": rp.media_url(time=rp.timeline[0][0])}]
-                        return []
-                return []
+                    if not (rp.timeline and rp.media and "$Time$" in rp.media):
+                        continue
+                    ini = segwalk.get(client, rp.init_url())
+                    trex = segwalk.init_trex_duration(ini.data) if ini.status_code == 200 else None
+                    prev = None
+                    for t, d in rp.timeline[:3]:
+                        f = fetch_media(client, segwalk, mp4walk, rp.media_url(time=t), trex)
+                        if f["status"] != 200:
+                            out.append({"kind": "admitted-not-retrievable", "request": f["url"], "status": f["status"]})
+                            break
+                        if f["tfdt"] != t or f["total"] != d or (prev is not None and f["tfdt"] != prev):
+                            out.append({"kind": "timeline-mismatch", "request": f["url"],
+                                        "what": f"{rp.rep_id}: listed S t={t} d={d}, served tfdt={f['tfdt']} "
+                                                f"duration={f['total']}, previous segment ended at {prev}"})
+                            break
+                        prev = f["tfdt"] + f["total"]
+                return out
             if w.get("check") == "request-status":
                 base = f"/mps/{w['mode']}/{defn.name}/{defn.pks[defn.periods[0].pid]}/"
                 r = client.get(w["request"].replace("{base}", base))
